@@ -5,7 +5,7 @@ CONSTANT StartRows <- QuickRows
 CONSTANT StartCols <- QuickCols
 CONSTANT CarryCells <- QuickCells
 CONSTANT CarryShelves <- AllShelves
-CONSTRAINT Bounded
+INVARIANT Bounded
 INVARIANT Protocol
 INVARIANT MaskSound
 INVARIANT MaskCached
